@@ -383,8 +383,8 @@ func cmdCheck(args []string) int {
 					ob.Result, ob.Solver = "proved", "trivial"
 					continue
 				}
-				if len(qy) > 4<<20 {
-					ob.Result, ob.Output = "undecided", "query larger than 4 MB: split the function"
+				if len(qy) > 24<<20 {
+					ob.Result, ob.Output = "undecided", "query larger than 24 MB: split the function"
 					continue
 				}
 				to := timeout
